@@ -399,7 +399,7 @@ func init() {
 	}
 
 	checks["C11"] = func(rep *Report, tier string, seed int64) {
-		rep.Rule = "binary: the full grid opcode 0..255 x key length {0,1,5} x extras {0,4,8} x total body {0,1,12,13,14,2^32-1} with 0..20 bytes following; mutations of valid requests (bit flips, truncation at every offset, length-field edits); random byte strings; text: lines with bad numeric fields, missing fields, long tokens, unicode white space; every input is given to the REAL parser (EOF-terminated, single goroutine) and to the model; compared: outcome class, decoded request, bytes consumed; oracle on the real parser: no panic, returns within 2 s, bytes allocated (runtime.MemStats.TotalAlloc delta) <= 64 KiB + 4 x input length + 2 x the model's allocation measure (the sizes the frame consistently declares); distinct = distinct (outcome class, opcode or text command)"
+		rep.Rule = "binary: the full grid opcode 0..255 x key length {0,1,5} x extras {0,4,8; for value-carrying opcodes also 9,16,255} x total body {0,1,12,13,14,2^32-1} with 0..20 bytes following; mutations of valid requests (bit flips, truncation at every offset, length-field edits); random byte strings; text: lines with bad numeric fields, missing fields, long tokens, unicode white space; every input is given to the REAL parser (EOF-terminated, single goroutine) and to the model; compared: outcome class, decoded request, bytes consumed; oracle on the real parser: no panic, returns within 2 s, bytes allocated (runtime.MemStats.TotalAlloc delta) <= 64 KiB + 4 x input length + 2 x the model's allocation measure (the sizes the frame consistently declares); distinct = distinct (outcome class, opcode or text command)"
 		d := StartDriver()
 		defer d.Close()
 		r := rand.New(rand.NewSource(seed))
@@ -432,8 +432,11 @@ func init() {
 				return false
 			}
 			if got != ob.line {
-				rep.Divergences = append(rep.Divergences, &Divergence{Scenario: what, What: "parser outcome", Impl: ob.line, Model: got, Script: []string{fmt.Sprintf("parse %s %s", proto, canonN(2000, data))}})
-				return false
+				// keep going: a later input may show the property itself failing (a concrete input)
+				if len(rep.Divergences) < 4 {
+					rep.Divergences = append(rep.Divergences, &Divergence{Scenario: what, What: "parser outcome", Impl: ob.line, Model: got, Script: []string{fmt.Sprintf("parse %s %s", proto, canonN(2000, data))}})
+				}
+				return len(rep.Violations) < 6
 			}
 			rep.Validated++
 			cls := strings.SplitN(ob.line, " ", 2)[0]
@@ -447,13 +450,18 @@ func init() {
 				}
 			}
 			distinct[proto+"/"+cls+"/"+first] = true
-			return len(rep.Divergences) < 4 && len(rep.Violations) < 6
+			return len(rep.Violations) < 6
 		}
 		// header grid
 		totals := []uint32{0, 1, 12, 13, 14, 0xffffffff}
 		for op := 0; op < 256; op++ {
 			for _, kl := range []int{0, 1, 5} {
-				for _, el := range []int{0, 4, 8} {
+				els := []int{0, 4, 8}
+				if op <= 3 || (op >= 0x0e && op <= 0x13) || op == 0x19 || op == 0x1a || op == 0x1c || op == 0x1d || op == 0x1e {
+					// the commands that carry a value: also extras lengths the command never has
+					els = []int{0, 4, 8, 9, 16, 255}
+				}
+				for _, el := range els {
 					for _, tot := range totals {
 						if tot == 0xffffffff && !(kl == 5 && el == 8 && (op < 4 || op == 0x0e || op == 0x19 || op == 0x09 || op == 0x55)) {
 							continue // a consistent 4 GiB body is legitimately allocated: sample it, do not sweep it
